@@ -426,11 +426,13 @@ func init() {
 		Rule: "every sequence of ≤3 (quick) / ≤4 (thorough) statements over a 62-statement fragment built from the three mechanisms named in the property's anchors (reserved keywords in lower/UPPER/Mixed case as keys and as unquoted values; board blocks before/between/after declarations they read or delete; globs, vars, one import) plus formatting-sensitive values, and the corpus; uncompilable programs are skipped (trivial); oracle: canonical projection (all boards, objects, attributes, connections, config) of Compile(x) equals that of Compile(Format(x))",
 		Oracles: map[string]eng.Oracle{"fmt-meaning": c04Oracle},
 		Run: func(w *eng.W) {
-			for k := 1; k <= w.Pick(3, 4); k++ {
-				k := k
+			lvl := func(k int) {
 				w.Phase(fmt.Sprintf("stmts<=%d", k), func() {
 					Seqs(c04Stmts, k, func(s []string) { w.Eval("fmt-meaning", strings.Join(s, "\n")) })
 				})
+			}
+			for k := 1; k <= 3; k++ {
+				lvl(k)
 			}
 			w.Phase("stmts-in-container", func() {
 				Seqs(c04Stmts, 2, func(s []string) { w.Eval("fmt-meaning", "k: {\n"+strings.Join(s, "\n")+"\n}") })
@@ -440,6 +442,9 @@ func init() {
 					w.Eval("fmt-meaning", src)
 				}
 			})
+			if w.Thorough() {
+				lvl(4) // deepest level last: it may hit the internal deadline
+			}
 		},
 	})
 
